@@ -90,6 +90,8 @@ def _show_first_divergence(eng, run):
 # --------------------------------------------------------------------------------------
 # mutants: (name, property, file, old, new)
 # --------------------------------------------------------------------------------------
+# (c20_intervals_raise and c20_skip_bad_value were dropped: the baseline tests already catch them, so they
+# are not "realistic changes that still pass the existing tests")
 MUTANTS = [
     # ---- C20 ----
     ("c20_no_maxsplit", "C20", "mir_eval/io.py", "data = splitter.split(line.strip(), n_columns - 1)", "data = splitter.split(line.strip())"),
@@ -97,15 +99,11 @@ MUTANTS = [
      "            if comment is not None and commenter.search(line[1:] if line[:1] != comment[:1] else line):\n                continue\n\n            # Split each line using the supplied delimiter\n            data = splitter.split(line.strip(), n_columns - 1)"),
     ("c20_float32", "C20", "mir_eval/io.py", "events = load_delimited(filename, [float], delimiter=delimiter, comment=comment)",
      "events = load_delimited(filename, [np.float32], delimiter=delimiter, comment=comment)"),
-    ("c20_intervals_raise", "C20", "mir_eval/io.py", "    intervals = np.array([starts, ends]).T\n    # Validate them, but throw a warning in place of an error\n    try:\n        util.validate_intervals(intervals)\n    except ValueError as error:\n        warnings.warn(error.args[0])\n\n    return intervals\n",
-     "    intervals = np.array([starts, ends]).T\n    util.validate_intervals(intervals)\n\n    return intervals\n"),
     ("c20_key_multiline", "C20", "mir_eval/io.py", "    if len(scale) != 1:\n        raise ValueError(\"Key file should contain only one line.\")", "    if len(scale) < 1:\n        raise ValueError(\"Key file should contain only one line.\")"),
     ("c20_row_lost", "C20", "mir_eval/io.py", "                    \"{}:{:d}:\\n\\t{}\".format(n_columns, len(data), filename, row, line)", "                    \"{}:{:d}:\\n\\t{}\".format(n_columns, len(data), filename, 0, line)"),
     ("c20_stale_cache", "C20", "mir_eval/io.py", "    events = load_delimited(filename, [float], delimiter=delimiter, comment=comment)\n    events = np.array(events)\n",
      "    if isinstance(filename, str) and (filename, delimiter, comment) in _EVENT_CACHE:\n        return _EVENT_CACHE[(filename, delimiter, comment)]\n    events = load_delimited(filename, [float], delimiter=delimiter, comment=comment)\n    events = np.array(events)\n    if isinstance(filename, str):\n        _EVENT_CACHE[(filename, delimiter, comment)] = events\n",
      ("def load_events(", "_EVENT_CACHE = {}\n\n\ndef load_events(")),
-    ("c20_skip_bad_value", "C20", "mir_eval/io.py", "                except:\n                    raise ValueError(\n                        \"Couldn't convert value {} using {} \"\n                        \"found at {}:{:d}:\\n\\t{}\".format(\n                            value, converter.__name__, filename, row, line\n                        )\n                    )\n",
-     "                except:\n                    continue\n"),
     ("c20_patterns_norow", "C20", "mir_eval/io.py", "                    \"found at {}:{:d}:\\n\\t{}\".format(string_values, filename, row, line)", "                    \"found at {}:\\n\\t{}\".format(string_values, filename, line)"),
     ("c20_ragged_int_time", "C20", "mir_eval/io.py", "                converted_time = float(data[0])", "                converted_time = float(data[0]) if '.' in data[0] or 'e' in data[0].lower() else float(int(data[0]))"),
     # ---- C15 ----
@@ -113,8 +111,8 @@ MUTANTS = [
     ("c15_labels_alias", "C15", "mir_eval/util.py", "    if labels is not None:\n        # Work on a copy: the caller's list of labels must not be modified\n        labels = list(labels)\n\n    if t_min is not None:\n        # Find the intervals that end after t_min", "    if t_min is not None:\n        # Find the intervals that end after t_min"),
     ("c15_table_pollution", "C15", "mir_eval/chord.py", "        scale_degrees.update(addl_scale_degrees)", "        addl_scale_degrees.update(scale_degrees)\n        scale_degrees = addl_scale_degrees"),
     ("c15_resample_append", "C15", "mir_eval/multipitch.py", "    freq_vals = frequencies + [np.array([])]", "    frequencies.append(np.array([]))\n    freq_vals = frequencies"),
-    ("c15_uninit_tp", "C15", "mir_eval/multipitch.py", "    true_positives = np.zeros((n_frames,))\n    for i, (ref_frame, est_frame) in enumerate(zip(ref_freqs, est_freqs)):\n",
-     "    true_positives = np.empty((n_frames,))\n    for i, (ref_frame, est_frame) in enumerate(zip(ref_freqs, est_freqs)):\n        if len(ref_frame) == 0:\n            continue\n"),
+    ("c15_uninit_tp", "C15", "mir_eval/multipitch.py", "    true_positives = np.zeros((n_frames,))\n\n    for i, (ref_frame, est_frame) in enumerate(zip(ref_freqs, est_freqs)):\n",
+     "    true_positives = np.empty((n_frames,))\n\n    for i, (ref_frame, est_frame) in enumerate(zip(ref_freqs, est_freqs)):\n        if len(ref_frame) == 0:\n            continue\n"),
     ("c15_kwargs_leak", "C15", "mir_eval/onset.py", "def evaluate(reference_onsets, estimated_onsets, **kwargs):", "_SEEN_KWARGS = {}\n\n\ndef evaluate(reference_onsets, estimated_onsets, **kwargs):\n    _SEEN_KWARGS.update(kwargs)\n    kwargs = dict(_SEEN_KWARGS)"),
     ("c15_shared_scratch", "C15", "mir_eval/beat.py", "    beat_error = np.zeros(estimated_beats.shape[0])\n    for n in range(estimated_beats.shape[0]):",
      "    if _SCRATCH[0] is None or _SCRATCH[0].shape[0] != estimated_beats.shape[0]:\n        _SCRATCH[0] = np.zeros(estimated_beats.shape[0])\n    beat_error = _SCRATCH[0]\n    for n in range(estimated_beats.shape[0]):",
@@ -213,10 +211,17 @@ def mutants(names, engine_of):
             sys.stdout.flush()
     finally:
         shutil.rmtree(base, ignore_errors=True)
-    out = os.path.join(core.VERIF_DIR, "selftest_mutants.json")
-    if not names:
-        with open(out, "w") as f:
-            json.dump({"source_tree": src, "results": results}, f, indent=1)
+    out = os.path.join(os.environ.get("VERIF_MUT_OUT") or core.VERIF_DIR, "selftest_mutants.json")
+    merged = {}
+    if os.path.exists(out):
+        try:
+            merged = {r["mutant"]: r for r in json.load(open(out))["results"]}
+        except Exception:
+            merged = {}
+    for r in results:
+        merged[r["mutant"]] = r
+    with open(out, "w") as f:
+        json.dump({"source_tree": src, "results": [merged[k] for k in sorted(merged)]}, f, indent=1)
     missed = [r["mutant"] for r in results if not r["caught"]]
     unreal = [r["mutant"] for r in results if r["baseline"] == "FAIL"]
     print("selftest-mutants: %d/%d caught; missed=%s; baseline-failing (not realistic)=%s" % (
